@@ -210,8 +210,9 @@ structure Obj where
   digits : Option (Digits × Digits)
   /-- keys present in `_cache_` -/
   cache : List String
-  /-- data-dependent: does `fpzip.compress` fail ("memory buffer overflow") on the values this
-      object hands to it?  Then `_fpzip_encoded` stores the literal array (pickler.py:535-550).
+  /-- data-dependent: does the encoder end up storing the whole array literally although it is above
+      the cutoff?  (`fpzip.compress` fails with "memory buffer overflow" and `_fpzip_encoded` stores the
+      literal array, pickler.py `_fpzip_encoded`; possible under every digits setting.)
       An arbitrary input of the model: the theorems hold for either answer. -/
   fpzipFails : Bool
   deriving DecidableEq, Repr
@@ -311,8 +312,9 @@ def asize (items : List Item) : Nat := items.flatten.length
 /-- `_encode_floats` (pickler.py:660-694) -/
 def encodeFloats (P : Params) (d : Digits) (fails : Bool) (vshape : Shape) (items : List Item) : FEnc :=
   if asize items ≤ P.cutoff then .literal vshape items
+  else if fails then .literal vshape items          -- `_fpzip_encoded`: fpzip refused the array, under ANY digits setting
   else match d with
-    | .double => if fails then .literal vshape items else .f64 vshape 0 (P.fpzip.enc items)
+    | .double => .f64 vshape 0 (P.fpzip.enc items)
     | d => .other vshape (P.lossyEnc d vshape items)
 
 /-- `_decode_floats` (pickler.py:722-758) -/
